@@ -484,7 +484,7 @@ def run(env, res):
         return res
     n_cases = 300 if tier == 'quick' else 10000
     jobs = [(f, n_cases, env['seed'], use_model) for f in FUNCTIONS]
-    nproc = min(len(jobs), max(1, (os.cpu_count() or 2) - 1), 14)
+    nproc = min(len(jobs), max(1, (os.cpu_count() or 2) - 1), 8 if tier == 'quick' else 12)
     t0 = time.time()
     with multiprocessing.Pool(nproc) as pool:
         results = pool.map(work, jobs, chunksize=1)
